@@ -2,12 +2,12 @@
 import fractions
 import time
 
-from harness import batt
+from harness import batt, batt_sim
 from harness.batt import F
 
 PID = "C03"
-GEN_GROUPS = ["Battery", "BatteryGuard"]
-TARGETS = ["coq/Props/C03.vo", "coq/Model/Battery.vo"]
+GEN_GROUPS = ["Battery", "BatteryGuard", "Evse"]
+TARGETS = ["coq/Props/C03.vo", "coq/Model/Battery.vo", "coq/Model/BatteryStation.vo"]
 CASES = {"quick": 700, "thorough": 20000}
 CORR_HEADER = batt.CORR_HEADER
 CHECK_FN = "check_batt"
@@ -20,7 +20,10 @@ RULE = ("battery class (ideal / two-stage continuous / two-stage stepwise) x noi
         "constructions (init > capacity, transition_soc outside [0,1), unknown charge_calculation, charge_calculation "
         "reassigned after construction); non-trivial = distinct (battery, operation list); a case is cut before the "
         "first operation whose `soc < transition_soc` test (stepwise + noise: the only discontinuous decision) is "
-        "within 1e-9 of flipping, and skipped as ambiguous if that is the first operation")
+        "within 1e-9 of flipping, and skipped as ambiguous if that is the first operation; stream `sim`: real Simulator runs "
+        "(1-3 stations, sequential sessions with batteries of every class started near full / near the transition, "
+        "scripted non-negative pilots, noise through the patched numpy.random.normal), one case per station comparing "
+        "the recorded pilot_signals / charging_rates rows and final EV energies with the station model")
 ASSUMPTIONS = ["theorems are over R (exact arithmetic, real exp); the implementation computes in IEEE doubles",
                "np.random.normal is an arbitrary real (explicit kernel parameter); the harness patches it to return the value given to the model",
                "two-stage theorems assume capacity > 0 and max_power > 0 (the constructors do not check this; with 0 the code raises ZeroDivisionError)",
@@ -181,8 +184,28 @@ def gen_cases(rng, n, tier):
     return cases[:n]
 
 
+def sim_cases(rng, nsims):
+    """real Simulator runs; one case per station: recorded pilot / rate rows vs the station model"""
+    out = []
+    for _ in range(nsims):
+        inp = batt_sim.rand_sim(rng, __import__("harness.c03", fromlist=["x"]))
+        out.extend(build_sim(inp))
+    return out
+
+
+def build_sim(inp):
+    impl = batt_sim.run_sim(inp)
+    amb = impl["error"] is None and batt_sim.ambiguous(inp, impl)
+    out = []
+    for s, coq in enumerate(batt_sim.station_cases(inp, impl)):
+        out.append(dict(input=dict(sim=inp, station=s), impl=impl, coq=coq, ambiguous=amb, kind="sim/station",
+                        sig=["sim", inp, s], nontrivial=impl["periods"] > 0))
+    return out
+
+
 def extra_streams(rng, tier):
-    return [("qexp", CORR_HEADER, "check_qexp", batt.qexp_cases(rng, 60 if tier == "quick" else 600))]
+    return [("sim", batt_sim.HEADER, batt_sim.CHECK_FN, sim_cases(rng, 40 if tier == "quick" else 600)),
+            ("qexp", CORR_HEADER, "check_qexp", batt.qexp_cases(rng, 60 if tier == "quick" else 600))]
 
 
 # witnesses of earlier findings are always part of the stream (known_findings.json: fixed in 79f722b)
@@ -202,9 +225,23 @@ CORPUS = [
 REL = 1e-9
 
 
+def monitor_sim(case):
+    """Hence in every simulation 0 <= recorded rate <= recorded pilot at every station and period."""
+    impl, s = case["impl"], case["input"]["station"]
+    if impl["error"] is not None:
+        return "simulation with valid non-negative pilots raised %s" % impl["error"]
+    for t, (p, r) in enumerate(zip(impl["pilots"][s], impl["rates"][s])):
+        tol = REL * max(1.0, abs(p))
+        if not (-tol <= r <= p + tol):
+            return "station %d period %d: recorded rate %r outside [0, recorded pilot %r]" % (s, t, r, p)
+    return None
+
+
 def monitor(case):
     if case.get("kind") == "qexp" or case.get("ambiguous"):
         return None
+    if case.get("kind") == "sim/station":
+        return monitor_sim(case)
     spec, ops, impl = case["input"]["spec"], case["input"]["ops"], case["impl"]
     cap, maxP, init = spec["cap"], spec["maxP"], spec["init"]
     l2 = spec["kind"] == "l2"
@@ -263,11 +300,21 @@ def search(rng, budget_s, broken):
             r = monitor(c)
             if r:
                 return dict(case=c["input"], impl=c["impl"], why=r)
+        for c in sim_cases(rng, 10):
+            r = monitor(c)
+            if r:
+                return dict(case=c["input"], impl=c["impl"], why=r)
     return None
 
 
 def replay(w):
     inp = w["case"]
+    if "sim" in inp:
+        for c in build_sim(inp["sim"]):
+            r = monitor(c)
+            if r:
+                return r
+        return None
     spec, ops = inp["spec"], [tuple(o) for o in inp["ops"]]
     c = build(dict(spec), ops)
     return monitor(c)
